@@ -418,9 +418,18 @@ func (d *dumper) dump(sb *strings.Builder, v engine.Value, t types.Type) {
 func BuildReplay(pc *PathCtx, model map[string]uint64) *ReplayInfo {
 	ri := &ReplayInfo{}
 	inPath := pc.T.InPkg.Pkg.Path()
+	extra := map[string]string{}
 	qual := func(p *types.Package) string {
 		if p.Path() == inPath {
 			return "in"
+		}
+		if strings.HasPrefix(p.Path(), corpusModule+"/") {
+			if a, ok := extra[p.Path()]; ok {
+				return a
+			}
+			a := fmt.Sprintf("aux%d", len(extra)+1)
+			extra[p.Path()] = a
+			return a
 		}
 		return "UNSUPPORTEDPKG_" + p.Name()
 	}
@@ -463,6 +472,10 @@ func BuildReplay(pc *PathCtx, model map[string]uint64) *ReplayInfo {
 		ri.Hooks = append(ri.Hooks, fmt.Sprintf("case %d:\n\t\t\tif name != %q {\n\t\t\t\tfmt.Println(\"VERIF-REPLAY-MISMATCH call\", calls, name)\n\t\t\t}\n\t\t\t%s", k, c.Name, strings.Join(as, "\n\t\t\t")))
 	}
 	ri.Stmts = b.stmts
+	for path, alias := range extra {
+		ri.Imports = append(ri.Imports, fmt.Sprintf("%s %q", alias, path))
+	}
+	sort.Strings(ri.Imports)
 	if strings.Contains(strings.Join(append(ri.Stmts, ri.ArgExprs...), " "), "UNSUPPORTEDPKG_") {
 		ri.Unsupported = "types of a third package in the signature"
 	}
@@ -682,7 +695,15 @@ func (ri *ReplayInfo) TestSource(cv *Conv, t *Target) string {
 		}
 		call = fmt.Sprintf("(&gen.%s{}).%s(%s)", impl, cv.Method, args)
 	}
-	sb.WriteString(")\n\nvar _ = math.Abs\nvar _ in." + firstExported(t) + "\n")
+	for _, im := range ri.Imports {
+		sb.WriteString("\t" + im + "\n")
+	}
+	sb.WriteString(")\n\nvar _ = math.Abs\n")
+	if fe := firstExported(t); fe != "" {
+		sb.WriteString("var _ in." + fe + "\n")
+	} else {
+		sb.WriteString("var _ = in.VerifHook\n")
+	}
 	sb.WriteString(replayDumpSrc)
 	sb.WriteString("\nfunc TestVerifReplay(t *testing.T) {\n")
 	for _, s := range ri.Stmts {
@@ -732,7 +753,7 @@ func firstExported(t *Target) string {
 			return n
 		}
 	}
-	return "UnknownType"
+	return ""
 }
 
 // Replay runs the native replay of a finding inside the corpus module and copies the material to dir.
